@@ -48,6 +48,7 @@ type stressWho struct {
 
 func installStressHook() {
 	crl.SetVerifWriteHook(func(point, temp, path string) {
+		coarseMtime(point, temp)
 		if v, ok := stressReg.Load(goid()); ok {
 			s := v.(stressWho)
 			s.log.add(s.w, point, "", nil)
